@@ -58,7 +58,7 @@ PROBES = ["reader_blocked_by_writer", "writer_blocked", "three_or_more_polling",
           "session_failed_user_exc", "session_failed_encoder_exc", "session_failed_dup_at_put",
           "session_failed_io_error", "queue_nonempty_after_failed_session", "same_path_two_spellings", "two_libraries",
           "pickled_handle", "create_race", "reader_saw_maybe_record", "molecule_library_payload", "failed_put_caught_session_continues",
-          "used_handle_shipped_to_another_process", "shipped_handle_carried_a_write_queue", "session_left_by_a_base_exception", "own_record_read_back_inside_the_writing_session"]
+          "used_handle_shipped_to_another_process", "shipped_handle_carried_a_write_queue", "session_left_by_a_base_exception", "own_record_read_back_inside_the_writing_session", "master_made_with_overwrite_then_pickled"]
 
 # what user code inside a session can end with: ordinary exceptions, and the ones that do not derive from Exception
 # (Ctrl-C, sys.exit() in a worker that catches it further up, a cancelled asyncio task) - the process stays alive
@@ -263,6 +263,7 @@ def gen_plan(r, tier, index):
                            "arg": r.randrange(1, 5000)})
     plan = {
         "check": CHECK, "directed": "lost-close-then-same-size-append" if same_size is not None else None,
+        "master_overwrite": r.random() < 0.2,
         "bufsize": r.choice([8192, 4096, 4096, 65536, 64]), "payload": r.choice(["dict", "dict", "dict", "mol"]),
         "nlibs": nlibs, "create_race": create_race, "procs": procs, "faults": faults,
         "latency": r.choice([0, 0, 0, 0.0005, 0.004]),
@@ -296,14 +297,15 @@ def _libname(i):
 _PAYLOAD = ["dict"]   # payload mode of the run in progress (one run at a time per interpreter)
 
 
-def _mk(path, readonly, cb):
+def _mk(path, readonly, cb, overwrite=False):
     from molli.storage import Collection, UkvCollectionBackend
 
+    kw = {"overwrite": True} if overwrite and not readonly else {}
     if _PAYLOAD[0] == "mol":
         import molli as ml
 
-        return ml.MoleculeLibrary(path, readonly=readonly, bufsize=cb)
-    return Collection(path, UkvCollectionBackend, value_encoder=enc, value_decoder=dec, readonly=readonly, bufsize=cb)
+        return ml.MoleculeLibrary(path, readonly=readonly, bufsize=cb, **kw)
+    return Collection(path, UkvCollectionBackend, value_encoder=enc, value_decoder=dec, readonly=readonly, bufsize=cb, **kw)
 
 
 class _Sess:
@@ -386,7 +388,11 @@ def _run_plan(plan, trace=False):
         def master_blob(i, readonly, cb):
             key = (i, readonly, cb)
             if key not in master_blobs:
-                m = _mk(K.SimPath(_libname(i)), readonly, cb)
+                # (some masters are made with overwrite=True - "start this library afresh" - while the library is still
+                #  empty: that is a property of the moment the master was made, not of its pickled copies)
+                m = _mk(K.SimPath(_libname(i)), readonly, cb, overwrite=bool(plan.get("master_overwrite")))
+                if plan.get("master_overwrite") and not readonly:
+                    res.stats["probe:master_made_with_overwrite_then_pickled"] += 1
                 master_blobs[key] = pickle.dumps(m)
             return master_blobs[key]
 
